@@ -44,6 +44,12 @@ DEFINES = ["v s", "v n; w string:W", "global g s", "v lst", "v missing | string:
 
 # templates that once separated a seeded defect from the real thing: they always run first
 FIXED = [
+    # an inner loop re-using the outer loop's variable name: afterwards `repeat/x` and `x` are the outer loop's again
+    [("elem", "ul", [], {}, [("elem", "li", [], {"repeat": "x people"},
+                              [("elem", "b", [], {"repeat": "x lst", "content": "x"}, []), ("elem", "i", [], {"content": "repeat/x/number"}, []),
+                               ("elem", "u", [], {"content": "x/name | string:?", "attributes": "class repeat/x/end"}, [])])])],
+    [("elem", "div", [], {"repeat": "y lst"}, [("elem", "span", [], {"repeat": "y lst"}, [("elem", "em", [], {"repeat": "y elst"}, [("text", "never")]), ("text", ".")]),
+                                                  ("elem", "i", [], {"content": "string:${repeat/y/index}/${repeat/y/length}=${y}"}, [])])],
     [("elem", "ul", [], {}, [("elem", "li", [], {"repeat": "x mixed", "content": "x/name | default"}, [("text", "(unnamed)")])])],
     [("elem", "ul", [], {}, [("elem", "li", [], {"repeat": "x mixed", "replace": "x/name | nothing"}, [("text", "gone")])])],
     [("elem", "ul", [], {}, [("elem", "li", [("class", "row")], {"repeat": "x lst", "attributes": "title attrs/class"},
@@ -357,12 +363,51 @@ def dec_prog(s):
     return out
 
 
+class Runaway(Exception):
+    """the real engine did not finish: output beyond any template of the generators, or no end within the time limit"""
+
+
+class Sink(io.StringIO):
+    LIMIT = 2_000_000
+
+    def write(self, x):
+        if self.tell() > self.LIMIT:
+            raise Runaway("more than %d characters of output" % self.LIMIT)
+        return super().write(x)
+
+
+class time_limit:
+    """SIGALRM-based limit around one expansion (main thread only; a no-op elsewhere)"""
+
+    def __init__(self, seconds=5):
+        self.seconds = seconds
+
+    def __enter__(self):
+        import signal
+        import threading
+        self.on = threading.current_thread() is threading.main_thread()
+        if self.on:
+            def fire(signum, frame):
+                raise Runaway("no end within %s s" % self.seconds)
+            self.prev = signal.signal(signal.SIGALRM, fire)
+            signal.setitimer(signal.ITIMER_REAL, self.seconds)
+        return self
+
+    def __exit__(self, *a):
+        import signal
+        if self.on:
+            signal.setitimer(signal.ITIMER_REAL, 0)
+            signal.signal(signal.SIGALRM, self.prev)
+        return False
+
+
 def real_expand(t, g, allow_python=False):
     ctx = simpleTALES.Context(allowPythonPath=1 if allow_python else 0)
     for k, v in g.items():
         ctx.addGlobal(k, v)
-    o = io.StringIO()
-    t.expand(ctx, o)
+    o = Sink()
+    with time_limit():
+        t.expand(ctx, o)
     snap = {"locals": dict(ctx.locals), "globals": {k: v for k, v in ctx.globals.items() if k not in BUILTIN_GLOBALS},
             "localStack": len(ctx.localStack), "repeatStack": len(ctx.repeatStack), "repeatMap": len(ctx.repeatMap)}
     return o.getvalue(), snap
